@@ -14,9 +14,12 @@
    enable/disable, expectations added between calls; not modelled: custom comparators/copiers, tracing, nested scopes.
    A RUN of several tests sharing one TestResult with the MockSupportPlugin installed (C08_Runs.v): every test is the scenario "its
    mock operations, then the plugin's check" on a new mock, whatever the earlier tests did; the object of a call as a value (the
-   null object is an object; no onObject is not). *)
+   null object is an object; no onObject is not).
+   Tests WITH A TEARDOWN (mock().checkExpectations() / mock().clear() on mock() or a scope) under the library's default reporter
+   (C08_ModelTd.v, C08_Calm.v, C08_Teardown.v): the teardown runs on what the body left in mock(); a test that has failed is not
+   failed again; with the usual teardown the test is the scenario "its mock operations, then mock().checkExpectations()". *)
 From Coq Require Import ZArith NArith Bool List Permutation.
-From CppUVerif Require Import lib.CInt lib.Str C08_Model C08_Proofs C08_Proofs2 C08_Scopes C08_Count C08_Outs C08_Post C08_Proofs3 C08_Runs.
+From CppUVerif Require Import lib.CInt lib.Str C08_Model C08_Proofs C08_Proofs2 C08_Scopes C08_Count C08_Outs C08_Post C08_Proofs3 C08_Runs C08_ModelTd C08_Calm C08_Teardown.
 From CppUVerif Require C09_Model.
 Import ListNotations.
 
@@ -372,3 +375,120 @@ Theorem C08_no_object_expected : forall a,
   passed_obs (runw (noobj_scenario [IObj a])) = true /\ passed_obs (runw (noobj_scenario [])) = true.
 Proof. exact no_object_expected. Qed.
 Print Assumptions C08_no_object_expected.
+
+(* ---------------------------------------------------------------- tests with a teardown, the library's default mock failure reporter
+   (MockFailureReporter::failTest: a test that has failed is not failed again) -- "the first deviation fails the test ONCE" *)
+
+(* the run meets its specification (spec_runt: ONCE -- nothing is delivered by the teardown or the plugin to a test that failed in
+   its body, a failure delivered in the teardown is the only one; every failure counted once; the usual teardown's check is the
+   scenario's final check and after it has passed nothing more fails) *)
+Theorem C08_runs_t_meet_spec : forall ts, valid_runt ts = true -> spec_runt ts (runs_t ts) = true.
+Proof. exact runs_t_meet_spec. Qed.
+Print Assumptions C08_runs_t_meet_spec.
+
+(* C08_run_meets_spec for every valid scenario of the language as extended here: single scenario, run of tests, run of tests with
+   teardowns *)
+Theorem C08_run_x_meets_spec : forall s, valid_x s = true -> spec_x s (run_x s) = true.
+Proof. exact run_x_meets_spec. Qed.
+Print Assumptions C08_run_x_meets_spec.
+
+(* whatever mock() holds and whatever the teardown does: once the test has failed the default reporter delivers nothing *)
+Theorem C08_teardown_dropped_when_failed : forall td fx w j, snd (td_from rep_default fx true w j td) = [].
+Proof. exact td_dropped. Qed.
+Print Assumptions C08_teardown_dropped_when_failed.
+
+(* a delivered failure leaves the teardown: at most one per teardown, for ANY reporter *)
+Theorem C08_teardown_at_most_one : forall rep td fx failed w j, (length (snd (td_from rep fx failed w j td)) <= 1)%nat.
+Proof. exact td_at_most_one. Qed.
+Print Assumptions C08_teardown_at_most_one.
+
+(* a test that failed in its body (own check, or the first deviation that fails at the call): nothing from the teardown -- whatever
+   its checks still find in mock(): calls out of order, unfulfilled expectations or incomplete calls of other scopes --, nothing
+   from the plugin, exactly ONE failure *)
+Theorem C08_failed_test_not_failed_again : forall t, forallb step_valid (tt_body t) = true ->
+  failed_in_body (run_alone_t t) = true ->
+  x_td (run_alone_t t) = [] /\ o_post (x_obs (run_alone_t t)) = [] /\ x_total (run_alone_t t) = 1%N.
+Proof. exact failed_test_not_failed_again. Qed.
+Print Assumptions C08_failed_test_not_failed_again.
+
+(* a failure delivered while the teardown runs (the deviation only its check diagnoses) is the only failure of the test *)
+Theorem C08_teardown_failure_is_the_only_one : forall t, forallb step_valid (tt_body t) = true ->
+  x_td (run_alone_t t) <> [] ->
+  (length (x_td (run_alone_t t)) = 1)%nat /\ failed_in_body (run_alone_t t) = false /\
+  o_post (x_obs (run_alone_t t)) = [] /\ x_total (run_alone_t t) = 1%N.
+Proof. exact teardown_failure_is_the_only_one. Qed.
+Print Assumptions C08_teardown_failure_is_the_only_one.
+
+(* every failure observed in the test (own check, failing operation, teardown, plugin) is counted once *)
+Theorem C08_teardown_counts_failures : forall t, forallb step_valid (tt_body t) = true ->
+  x_total (run_alone_t t) = failures_in_x (run_alone_t t).
+Proof. exact run_alone_t_counts. Qed.
+Print Assumptions C08_teardown_counts_failures.
+
+(* the test with the usual teardown IS the scenario X = "its mock operations, then mock().checkExpectations()": same values, same
+   failure (delivered in the body, or by the teardown's first operation when the check fails), exactly one failure when X fails
+   and none at all when X passes -- nothing from the rest of the teardown, nothing from the plugin *)
+Theorem C08_usual_teardown_is_scenario : forall t r,
+  ttest_valid t = true -> own_fails (tt_body t) = false -> tt_td t = (0%N, OCheck) :: r ->
+  let o := run_alone_t t in
+  let X := ops_before (tt_body t) ++ [(0%N, OCheck)] in
+  with_fail (x_obs o) (o_fail (runw X)) = runw X /\ x_own o = false /\
+  match o_fail (runw X) with
+  | None => x_total o = 0%N /\ x_td o = [] /\ o_fail (x_obs o) = None /\ o_post (x_obs o) = []
+  | Some (i, fl) =>
+      x_total o = 1%N /\ o_post (x_obs o) = [] /\
+      ((i < N.of_nat (length (ops_before (tt_body t))))%N /\ o_fail (x_obs o) = Some (i, fl) /\ x_td o = [] \/
+       i = N.of_nat (length (ops_before (tt_body t))) /\ o_fail (x_obs o) = None /\ x_td o = [(0%N, fl)])
+  end.
+Proof. exact usual_teardown_is_scenario. Qed.
+Print Assumptions C08_usual_teardown_is_scenario.
+
+(* its verdict (canonical judged mock script): no failure iff the multisets / strict sequences agree in every scope *)
+Theorem C08_usual_teardown_verdict : forall t r k,
+  ttest_valid t = true -> own_fails (tt_body t) = false -> tt_td t = (0%N, OCheck) :: r ->
+  parsew (ops_before (tt_body t) ++ [(0%N, OCheck)]) = Some k -> judgedw k = true ->
+  (x_total (run_alone_t t) = 0%N <-> verdictw_ok k = true).
+Proof. exact usual_teardown_verdict. Qed.
+Print Assumptions C08_usual_teardown_verdict.
+
+(* a mock().checkExpectations() that passed (on a world reached by operations that went through) leaves nothing to report: every
+   later checkExpectations() / clear() of the teardown passes and the plugin's check delivers nothing *)
+Theorem C08_passed_check_leaves_calm : forall w w', ok_world w = true -> check_world w = inl w' -> calm_world w' = true.
+Proof. exact check_world_calm. Qed.
+Print Assumptions C08_passed_check_leaves_calm.
+Theorem C08_calm_teardown_is_quiet : forall td w j, calm_world w = true -> td_valid td = true ->
+  exists w', td_from rep_default true false w j td = (w', []) /\ calm_world w' = true.
+Proof. exact td_calm. Qed.
+Print Assumptions C08_calm_teardown_is_quiet.
+Theorem C08_calm_plugin_check_is_quiet : forall w, calm_world w = true -> post_world w = [].
+Proof. exact post_world_calm. Qed.
+Print Assumptions C08_calm_plugin_check_is_quiet.
+(* no last actual call is CALL_FAILED in a world reached by operations that went through (the failure left the test) *)
+Theorem C08_no_failed_call_while_running : forall w so w' rv, ok_world w = true -> stepw true w so = inl (w', rv) -> ok_world w' = true.
+Proof. exact stepw_ok. Qed.
+Print Assumptions C08_no_failed_call_while_running.
+
+(* the plugin's end-of-test check is mock().checkExpectations() with a reporter that returns *)
+Theorem C08_plugin_check_is_returning_check : forall w, post_world w = snd (stepw_nl w (0%N, OCheck)).
+Proof. exact post_world_is_check_nl. Qed.
+Print Assumptions C08_plugin_check_is_returning_check.
+
+(* a run of tests with teardowns is the list of its tests run alone, the counter summed; the plugin leaves mock() new after each *)
+Theorem C08_runs_t_independent : forall ts, runs_t ts = sumsx 0 (map run_alone_t ts).
+Proof. exact runs_t_independent. Qed.
+Print Assumptions C08_runs_t_independent.
+Theorem C08_run_t_leaves_mock_clear : forall st t, rs_world (fst (run_one_t rep_default plugin_post true st t)) = world0.
+Proof. exact run_one_t_clears. Qed.
+Print Assumptions C08_run_t_leaves_mock_clear.
+
+(* without teardown the test is the test of C08_Runs *)
+Theorem C08_teardown_empty_is_run : forall t, run_alone_t {| tt_body := t; tt_td := [] |} =
+  {| x_obs := to_obs (run_alone t); x_own := to_own (run_alone t); x_td := []; x_total := to_total (run_alone t) |}.
+Proof. exact teardown_empty_is_run. Qed.
+Print Assumptions C08_teardown_empty_is_run.
+
+(* a reporter that fails the test without asking whether it has already failed does NOT have the property: the test that calls out
+   of order and then makes an unexpected call is failed twice when its teardown checks *)
+Theorem C08_reporter_always_refuted : ~ reporter_ok rep_always.
+Proof. exact reporter_always_refuted. Qed.
+Print Assumptions C08_reporter_always_refuted.
